@@ -24,7 +24,7 @@ for pid in ALL:
         "replay_cmd_template": f"{PY} -m pdqverif replay {{path}}",
         "engine": "pdqverif",
         "level_claimed": {"category": getattr(mod, "LEVEL", "other"), "text": mod.LEVEL_TEXT, "design_ref": f"DESIGN.md section 5, {pid}"},
-        "level_note": mod.LEVEL_NOTE + "  The probdiffeq.backend wrappers met while interpreting are decided against the meaning the domains give them (rules R-%s-TB / -TB2); the interpreter's models of the underlying library routines remain trusted." % pid,
+        "level_note": mod.LEVEL_NOTE + "  The probdiffeq.backend wrappers met while interpreting are decided against the meaning the domains give them (rule R-%s-TB); the interpreter's models of the underlying library routines remain trusted." % pid,
         "technique": mod.TECHNIQUE,
     })
 m = {
